@@ -23,7 +23,17 @@ def run(ctx):
     P = ctx.prog
     RP = P.cls('RemotePickler36')
     init = RP.methods['__init__']
-    DT = P.cls('dyn_dispatch_table')
+    DT = None
+    for st in walk_local(init.node):
+        if isinstance(st, ast.Assign) and any(is_self_attr(t, 'dispatch_table') for t in st.targets):
+            for c in calls_in(st.value):
+                r = P.resolve_dotted(init.module, dotted(c.func)) if dotted(c.func) else None
+                if r and r[0] == 'class':
+                    DT = r[1]
+    if DT is None:
+        cands = [c for c in init.module.classes.values() if 'dict' in [b if isinstance(b, str) else b.name for b in c.mro()] and '__getitem__' in c.methods]
+        ctx.require(len(cands) == 1, 'the dynamic dispatch table class was not found')
+        DT = cands[0]
     ctx.used(init, DT.methods['__init__'], DT.methods['__getitem__'], RP.methods['remote_reduce'])
     g = ctx.an.cfg(init, RP)
     flag_attr = None
@@ -78,9 +88,9 @@ def run(ctx):
     di = DT.methods['__init__']
     sup = [c for c in calls_in(di.node) if last_attr(c) == '__init__' and isinstance(c.func.value, ast.Call) and is_name(c.func.value.func, 'super')]
     ok = bool(sup) and any(isinstance(a, ast.Starred) and is_name(a.value, di.vararg) for a in sup[0].args)
-    ctx.check('R1', 'dyn_dispatch_table passes its initial content to dict.__init__', ok, 'dyn_dispatch_table.__init__', 'table-ctor-drops-content',
+    ctx.check('R1', 'dyn_dispatch_table passes its initial content to dict.__init__', ok, f'{DT.name}.__init__', 'table-ctor-drops-content',
               'the dynamic table ignores the initial mapping it is given (the copyreg reducers)', where=loc(di, di.node))
-    ctx.check('R1', 'dyn_dispatch_table is a dict', 'dict' in [b if isinstance(b, str) else b.name for b in DT.mro()], 'dyn_dispatch_table', 'table-not-dict', 'the dynamic table is not a dict', where=loc(di, di.node))
+    ctx.check('R1', 'the dynamic table is a dict', 'dict' in [b if isinstance(b, str) else b.name for b in DT.mro()], DT.name, 'table-not-dict', 'the dynamic table is not a dict', where=loc(di, di.node))
 
     # ---------------------------------------------------------------- R4 dynamic routing
     gi = DT.methods['__getitem__']
@@ -94,11 +104,11 @@ def run(ctx):
                 tests |= {e.dst.id for e in n.succ if e.kind == 'true'}
     domg = gg.dominators(edge_ok=is_flow)
     ok = bool(rets) and all(domg.get(n.id, set()) & tests for n in rets)
-    ctx.check('R4', 'dyn_dispatch_table routes to the remote reducer only under issubclass(key, SupportRemoteGetState)', ok, 'dyn_dispatch_table.__getitem__', 'routing-unconditional',
+    ctx.check('R4', 'dyn_dispatch_table routes to the remote reducer only under issubclass(key, SupportRemoteGetState)', ok, f'{DT.name}.__getitem__', 'routing-unconditional',
               'the dynamic table hands the remote reducer to classes that did not opt in: they are serialised through remote_reduce (which calls __getstate__(remote=...))',
               where=loc(gi, gi.node))
     fall = [c for c in calls_in(gi.node) if last_attr(c) == '__getitem__' and isinstance(c.func.value, ast.Call) and is_name(c.func.value.func, 'super')]
-    ctx.check('R4', 'other keys fall through to dict lookup (KeyError = not in the table)', bool(fall), 'dyn_dispatch_table.__getitem__', 'no-fallthrough',
+    ctx.check('R4', 'other keys fall through to dict lookup (KeyError = not in the table)', bool(fall), f'{DT.name}.__getitem__', 'no-fallthrough',
               'the dynamic table does not fall back to the plain lookup', where=loc(gi, gi.node))
     sub = RP.methods.get('subject_to_custom_reduce')
     ok = sub is not None and any(is_name(c.func, 'issubclass') and norm(c.args[0]) == 'type(obj)' and norm(c.args[1]).endswith('SupportRemoteGetState') for c in calls_in(sub.node))
